@@ -3,7 +3,7 @@ CONSTANTS
   Sets = {"A", "B"}
   Perms = {"PA"}
   Deltas = {"d1", "d2", "d3", "d4", "d5", "d6", "d7", "d8"}
-  Mech = {"pos", "order", "ovl", "meas"}
+  Mech = {"stubs", "pos", "order", "ovl"}
   MaxLen = 4
 INVARIANT Pure
 INVARIANT ReuseEqualsFresh
